@@ -463,7 +463,8 @@ var (
 
 var tsaChainMuts = []string{"", "leaf-eku-noncritical", "leaf-eku-plus-codesigning", "leaf-ku-keyencipherment", "leaf-no-ku", "leaf-is-ca",
 	"leaf-rsa1024", "leaf-ec224", "leaf-rsa2048", "ca-no-ku", "ca-ku-without-certsign", "leaf-expired", "leaf-not-yet-valid", "leaf-eku-any",
-	"leaf-ku-contentcommitment", "inter-pathlen-0-above-inter", "root-expired", "root-not-yet-valid", "all-expired"}
+	"leaf-ku-contentcommitment", "inter-pathlen-0-above-inter", "root-expired", "root-not-yet-valid", "all-expired",
+	"leaf-empty-subject", "ca-empty-subject", "root-empty-subject", "all-empty-subject"}
 
 // getTSA returns a TSA chain of n certificates (leaf first) with the named defect.
 func getTSA(n int, mut string) *tsaIdentity {
@@ -522,6 +523,18 @@ func getTSA(n int, mut string) *tsaIdentity {
 	case "all-expired":
 		for _, sp := range specs {
 			sp.NotAfter = baseTime().Add(-time.Hour)
+		}
+	case "leaf-empty-subject":
+		leaf.EmptySubject = true
+	case "ca-empty-subject":
+		if n > 1 {
+			specs[1].EmptySubject = true
+		}
+	case "root-empty-subject":
+		specs[n-1].EmptySubject = true
+	case "all-empty-subject":
+		for _, sp := range specs {
+			sp.EmptySubject = true
 		}
 	case "inter-pathlen-0-above-inter":
 		if n > 3 {
